@@ -279,8 +279,21 @@ func init() {
 				w = streamWF(c) // the failing command may be a streaming producer or its consumer
 			case 2:
 				return combinatorFailCase(c)
+			case 3:
+				return cmdParamsFailCase(c)
 			default:
 				w = Generate(c.Tape, tierProfile(profC09, c.Tier))
+				if c.Tape.Choose(simrt.StGen, 4, 0) == 1 {
+					// a parameter source nobody consumes: its out-port ends in the sink,
+					// next to the file out-ports of the leaves (the sink then drains a
+					// parameter stream that ends long before the failing task fails)
+					var vals []string
+					for i := 0; i < c.Tape.Choose(simrt.StGen, 3, 0); i++ {
+						vals = append(vals, fmt.Sprintf("unused%d", i))
+					}
+					addNode(w, Node{Name: "pdangle", Kind: KParamSrc, Vals: vals})
+					c.Probe("dangling-param-source")
+				}
 			}
 			ex := Eval(w)
 			var cands []*RTask
@@ -484,8 +497,24 @@ func init() {
 			}
 			c.Tasks++ // the failing command counts as work
 			v1 := failureOracle(inc, ex, victim, what, others...)
-			if v1.Status != "ok" || fault == nil || fault2 != nil || !fault.Hit || len(ex.StreamPaths) > 0 || c.Tape.Choose(simrt.StFault, 5, 0) != 1 {
+			if v1.Status != "ok" || fault == nil || fault2 != nil || !fault.Hit || len(ex.StreamPaths) > 0 {
 				return v1 // (re-runs of streaming workflows are C17's business)
+			}
+			hist := c.Tape.Choose(simrt.StFault, 5, 0)
+			if hist == 2 {
+				// history: the workflow is simply started again in place, nothing removed;
+				// the command still fails the same way. Whether the second attempt stops at
+				// the leftovers of the first or gets as far as the failing command again, it
+				// must not report completion, the failing task's outputs must not appear
+				// and nothing that depends on them may run
+				c.Fault("retry-in-place")
+				f2 := &FaultSpec{Key: fault.Key, Mode: fault.Mode, Arg: fault.Arg}
+				inc2 := RunInc(w, c.Tape, inc.Sim.FS.Root.Clone(), inc.Sim.FS.NextIno, IncOpts{KillAt: -1, Strategy: strategyOf(c.Tape), Trace: c.Trace, Fault: f2})
+				c.Absorb(inc2)
+				return failureOracle(inc2, ex, victim, what+" (second attempt, started in place without removing anything)", others...)
+			}
+			if hist != 1 {
+				return v1
 			}
 			// history: the user removes the temp directories, as the error message asks,
 			// and starts the workflow again; the command still fails the same way - the
@@ -500,6 +529,57 @@ func init() {
 			v2 := failureOracle(inc2, ex, victim, what+" (second attempt after cleanup)", others...)
 			return v2
 		}})
+}
+
+// cmdParamsFailCase: the command of a CommandToParams component fails
+// (non-zero exit after printing none / some / all of its lines, or killed):
+// the lines it printed must not be passed on as if they were the complete
+// parameter stream - the program must stop with a non-zero status.
+func cmdParamsFailCase(c *Case) Verdict {
+	t := c.Tape
+	w := &WF{Name: "wf", Sources: map[string]string{}}
+	n := t.Choose(simrt.StGen, 4, 0)
+	var vals, cmds []string
+	for i := 0; i < n; i++ {
+		v := fmt.Sprintf("line%d", i)
+		vals = append(vals, v)
+		cmds = append(cmds, "echo "+v)
+	}
+	tail := []string{"false", "exit 3", "test -e no_such_file", "cat no_such_file.txt"}[t.Choose(simrt.StFault, 4, 0)]
+	sep := []string{" && ", " ; "}[t.Choose(simrt.StFault, 2, 0)]
+	cmd := strings.Join(append(cmds, tail), sep)
+	if t.Choose(simrt.StFault, 3, 0) == 1 && n > 0 {
+		// the failing step in the middle of an && list
+		k := t.Choose(simrt.StFault, n, 0)
+		cmd = strings.Join(append(append(append([]string{}, cmds[:k]...), tail), cmds[k:]...), " && ")
+	}
+	ri := addNode(w, Node{Name: "rd", Kind: KCmdToParams, FilePath: cmd, Vals: vals})
+	paramConsumer(w, "use", []Edge{{ri, "param"}}, []string{"x"})
+	if t.Choose(simrt.StGen, 2, 0) == 1 {
+		oneToOne(w, "side", Edge{srcNode(w, "src0", 1+t.Choose(simrt.StGen, 3, 0), ""), "out"})
+	}
+	w.MaxTasks = 1 + t.Choose(simrt.StGen, 4, 0)
+	w.Bufsize = bufsizeOf(t)
+	what := "the command of CommandToParams fails (" + cmd + ")"
+	c.Fault("component-command-fails")
+	c.Sample = what + ": " + sample(w)
+	inc := RunInc(w, c.Tape, nil, 0, IncOpts{KillAt: -1, Strategy: strategyOf(c.Tape), Trace: c.Trace})
+	c.Absorb(inc)
+	c.Tasks += 2
+	if v, ok := inconclusiveEnd(inc); ok {
+		return v
+	}
+	s := inc.Sim
+	if inc.RT.RunReturned {
+		return Viol("silent-failure", "cmd-to-params", "%s, but the workflow program reported completion (%s)", what, endDesc(inc))
+	}
+	if s.End == simrt.EndDeadlock {
+		return Viol("failure-hang", "cmd-to-params", "%s, and the workflow hangs instead of stopping: %s", what, endDesc(inc))
+	}
+	if !(s.End == simrt.EndExit && s.ExitCode != 0) && s.End != simrt.EndPanic {
+		return Viol("failure-exit-status", "cmd-to-params", "%s, but the program ended with %s", what, endDesc(inc))
+	}
+	return OK()
 }
 
 // --- C16 ------------------------------------------------------------------------------
